@@ -251,3 +251,57 @@ package route
 // ---- C35: the environment cache is consulted by every request goroutine
 //@ guarded_by route.environmentCache.mutex: items
 //@ lockdiscipline route.environmentCache mutex props C35 wheld: addItem
+
+// ---- C37: unhandled paths are relayed faithfully. For this property http.Header has its real shape
+// (map[string][]string); net/http is otherwise a set of records with ghost effect logs:
+//   content(x)   the byte content (an abstract token) of a reader / buffer / body
+//   readOK(x)    the last io.ReadAll of x succeeded
+//   reqURL(q)    the URL string a client request was built with
+//   doN/doReq/doResp(c)  the requests a client performed, the last one, and its response
+//   copyN/copied(w)      io.Copy calls into w and the content copied by the last one
+//   respHeader(w)        the header map of a ResponseWriter
+//@ unopaque net/http.Header props C37
+//@ spec canonHeader(k string) string uninterpreted
+//@ spec sameValues(a []string, b []string) bool := len(a) == len(b) && (forall j int :: 0 <= j && j < len(a) ==> a[j] == b[j])
+//@ ghost content(ref) int
+//@ ghost readOK(ref) bool
+//@ ghost reqURL(ref) string
+//@ ghost doN(ref) int
+//@ ghost doReq(ref) ref
+//@ ghost doResp(ref) ref
+//@ ghost copyN(ref) int
+//@ ghost copied(ref) int
+//@ ghost respHeader(ref) http.Header
+//@ assume net/http.NewRequest
+//@   ensures result1 == nil ==> result0 != nil && isFresh(result0) && result0.Method == method && reqURL(result0) == url && content(result0.Body) == content(body) && (forall k string :: !in(result0.Header, k))
+//@ assume net/http.(*Request).WithContext
+//@   ensures result != nil && isFresh(result) && result.Method == r.Method && reqURL(result) == reqURL(r) && toInt(result.Body) == toInt(r.Body) && result.Header == r.Header && result.RemoteAddr == r.RemoteAddr
+//@ assume net/url.(*URL).String getter
+//@ assume net/http.(*Client).Do
+//@   ghostupdate doN(c), doReq(c), doResp(c) :: doN(c) == old(doN(c)) + 1 && toInt(doReq(c)) == toInt(req) && toInt(doResp(c)) == toInt(result0)
+//@   ensures result1 == nil ==> result0 != nil && result0.Body != nil && (forall k string :: in(result0.Header, k) ==> canonHeader(k) == k)
+//@ assume io.Copy
+//@   ghostupdate copyN(dst), copied(dst) :: copyN(dst) == old(copyN(dst)) + 1 && copied(dst) == content(src)
+//@ assume io.Closer.Close
+//@ assume io.ReadCloser.Close
+
+//@ contract route.(*Router).proxy props C37
+//@   arith math
+//@   requires r != nil && req != nil && req.URL != nil && req.Body != nil && r.proxyClient != nil
+//@   domain[incoming-header-names-are-canonical] (forall k string :: in(req.Header, k) ==> canonHeader(k) == k) && canonHeader("X-Forwarded-For") == "X-Forwarded-For"
+//@   let cl = r.proxyClient
+//@   let body0 = content(req.Body)
+//@   let xff = ite(in(req.Header, "X-Forwarded-For") && len(req.Header["X-Forwarded-For"]) > 0, req.Header["X-Forwarded-For"][0], "")
+//@   ensures[at-most-one-upstream-request] doN(cl) == old(doN(cl)) || doN(cl) == old(doN(cl)) + 1
+//@   ensures[same-method-path-and-query] doN(cl) != old(doN(cl)) ==> asPtr(doReq(cl), *http.Request).Method == req.Method && reqURL(doReq(cl)) == r.Config.GetHoneycombAPI() + req.URL.String()
+//@   ensures[same-body] doN(cl) != old(doN(cl)) && readOK(req.Body) ==> content(asPtr(doReq(cl), *http.Request).Body) == body0
+//@   ensures[same-header-values] doN(cl) != old(doN(cl)) ==> (forall k string :: k != "X-Forwarded-For" ==> in(asPtr(doReq(cl), *http.Request).Header, k) == in(req.Header, k) && (in(req.Header, k) ==> sameValues(asPtr(doReq(cl), *http.Request).Header[k], req.Header[k])))
+//@   ensures[forwarded-for-extended] doN(cl) != old(doN(cl)) ==> in(asPtr(doReq(cl), *http.Request).Header, "X-Forwarded-For") && len(asPtr(doReq(cl), *http.Request).Header["X-Forwarded-For"]) == 1 && asPtr(doReq(cl), *http.Request).Header["X-Forwarded-For"][0] == ite(xff != "", xff + ", " + req.RemoteAddr, req.RemoteAddr)
+//@   ensures[one-status] statusWrites(w) == old(statusWrites(w)) + 1
+//@   ensures[upstream-status-headers-and-body-relayed] copyN(w) != old(copyN(w)) ==> doN(cl) == old(doN(cl)) + 1 && lastStatus(w) == asPtr(doResp(cl), *http.Response).StatusCode && copied(w) == content(asPtr(doResp(cl), *http.Response).Body) && copyN(w) == old(copyN(w)) + 1 && (forall k string :: in(asPtr(doResp(cl), *http.Response).Header, k) ==> in(respHeader(w), k) && sameValues(respHeader(w)[k], asPtr(doResp(cl), *http.Response).Header[k]))
+//@   ensures[failure-is-an-error-answer] copyN(w) == old(copyN(w)) ==> bodyWrites(w) == old(bodyWrites(w)) + 1
+//@   loop 1 invariant[request-being-built] upstreamReq != nil && isFresh(upstreamReq) && upstreamReq.Method == req.Method && reqURL(upstreamReq) == upstreamTarget + req.URL.String() && (readOK(req.Body) ==> content(upstreamReq.Body) == body0) && doN(cl) == old(doN(cl)) && statusWrites(w) == old(statusWrites(w)) && bodyWrites(w) == old(bodyWrites(w)) && copyN(w) == old(copyN(w))
+//@   loop 1 invariant[headers-copied-so-far] (forall k string :: seen(k) ==> in(req.Header, k) && in(upstreamReq.Header, k) && sameValues(upstreamReq.Header[k], req.Header[k])) && (forall k string :: !seen(k) ==> !in(upstreamReq.Header, k))
+//@   loop 2 invariant[response-being-relayed] resp != nil && toInt(resp) == toInt(doResp(cl)) && doN(cl) == old(doN(cl)) + 1 && statusWrites(w) == old(statusWrites(w)) && bodyWrites(w) == old(bodyWrites(w)) && copyN(w) == old(copyN(w))
+//@   loop 2 invariant[response-headers-copied-so-far] forall k string :: seen(k) ==> in(resp.Header, k) && in(respHeader(w), k) && sameValues(respHeader(w)[k], resp.Header[k])
+//@   modifies all(doN), all(doReq), all(doResp), all(copyN), all(copied), all(readOK), all(respHeader), all(statusWrites), all(lastStatus), all(bodyWrites)
